@@ -31,12 +31,14 @@ def check_full_c(led):
             for full in (False, True):
                 n = size if full else len(free)
                 cu = np.array([real('c%d' % k) for k in range(n)], dtype=object)
+                given = {}
 
                 def run():
+                    given['cu'] = cu.copy()
                     cc = PC.new_cc(it, model='clpt_donnell_bc1', alphadeg=0., r2=real('r2'), L=real('L'), m1=M1, m2=M2, n2=N2, pdC=pdC, pdT=pdT,
                                    uTM=uTM, thetaTdeg=thT, betadeg=beta, stack=[real('th0')], plyt=real('plyt'), laminaprop=(real('E1'),))
                     it.call(it.getattr(cc, '_rebuild'), [], {})
-                    return cc, it.call(it.getattr(cc, 'calc_full_c'), [cu], dict(inc=inc))
+                    return cc, it.call(it.getattr(cc, 'calc_full_c'), [given['cu']], dict(inc=inc)), given['cu']
                 it.facts += [to_z3(real('r2')) > 0, to_z3(real('L')) > 0]
                 res = it.explore(run)
                 name = '%s[%s,size=%d,%s]' % (FC, tag, size, 'full-size input' if full else 'reduced input')
@@ -44,9 +46,14 @@ def check_full_c(led):
                     if out[0] == 'raise':
                         led.fail(name + '/no-exception', FC, {'raises': out[1].tname, 'args': [str(a)[:100] for a in out[1].eargs]}, signature='raise')
                         continue
-                    cc, c = out[1]
+                    cc, c, cu_after = out[1]
                     ck = dict(zip(cc.attrs['excluded_dofs'], cc.attrs['excluded_dofs_ck']))
                     probs = []
+                    changed = [k for k in range(n) if len(cu_after) != n or not K.compare(cu_after[k] if isinstance(cu_after[k], P) else P.const(cu_after[k]), cu[k])[0]]
+                    if changed:
+                        led.fail(name + '/the given vector is not modified', FC, {'differences': ['entries %s of the caller\'s vector changed' % changed[:6]] + (['the result is the caller\'s array itself'] if c is cu_after else [])}, signature='full_c-frame')
+                    else:
+                        led.ok(name + '/the given vector is not modified', FC, backend='symbolic-instance(bounded in length)')
                     if len(c) != size:
                         probs.append('length %d instead of %d' % (len(c), size))
                     else:
